@@ -90,14 +90,17 @@ def judge(ctx, scenario_case, results):
             died = [e for e in res.get("thread_errors", []) if e[0] == "DULServiceProvider"]
             if lean_v == "conn-close-missing" and died:
                 # consequence of the provider thread dying (C05's known races), not a separate defect
-                ctx.fail("history:conn-close-missing:provider-thread-died", f"{side}: no connection-close notification because the provider thread died ({died[0][1]})", case)
+                from harness import e2e as _e2e
+
+                ctx.fail(f"history:conn-close-missing:provider-thread-died:{_e2e.died_cause(died)}", f"{side}: no connection-close notification because the provider thread died ({died[0][1]})", case)
             else:
                 ctx.fail("history:" + lean_v, f"{side} history violates '{lean_v}'", case)
         if ds != ps:
             ctx.fail("history:pdu-sent-without-data-sent", f"{side}: PDU_SENT kinds {ps} but DATA_SENT kinds {ds}", case)
         if dr[: len(pr)] != pr and pr[: len(dr)] != dr:
             ctx.fail("history:pdu-recv-mismatch", f"{side}: PDU_RECV kinds {pr} but DATA_RECV kinds {dr}", case)
-        by_res.setdefault(id(res), {})[side] = (ds, dr, case)
+        if not str(res["script"]["acc"]).startswith("stray-"):  # there the harness itself put bytes on the wire
+            by_res.setdefault(id(res), {})[side] = (ds, dr, case)
     for sides in by_res.values():
         if "req" in sides and "acc" in sides:
             for a, b in (("req", "acc"), ("acc", "req")):
@@ -108,6 +111,56 @@ def judge(ctx, scenario_case, results):
                         f"{a} reports sending PDU kinds {sent} but {b} reports receiving {recv}",
                         sides[a][2],
                     )
+
+
+def stray_pdu_scenario(kind):
+    """A requestor is waiting for the answer to its C-ECHO when the peer puts an unexpected (kind "release-rp") or an
+    unrecognisable (kind "invalid") PDU on the wire; a slow EVT_PDU_SENT observer widens the window between the
+    provider's A-ABORT and its A-P-ABORT indication.  Both histories must still be well formed (the provider aborts,
+    goes to Sta13, closes, announces the close once)."""
+    import threading
+    import time
+
+    from pynetdicom import AE, evt
+    from pynetdicom.pdu import A_RELEASE_RP
+    from pynetdicom.sop_class import Verification
+
+    e2e.quiet()
+    before = set(e2e.pynet_threads())
+    rec_req, rec_acc = e2e.Recorder(), e2e.Recorder()
+    thread_errors = []
+    old_hook = threading.excepthook
+    threading.excepthook = lambda a: thread_errors.append((type(a.thread).__name__, a.exc_type.__name__ + ": " + str(a.exc_value)))
+    acc = {}
+
+    def on_echo(event):
+        raw = A_RELEASE_RP().encode() if kind == "release-rp" else b"\x99\x00\x00\x00\x00\x00"
+        event.assoc.dul.socket.socket.sendall(raw)  # straight onto the wire, not through the state machine
+        time.sleep(0.3)
+        return 0x0000
+
+    ae = AE()
+    ae.add_supported_context(Verification)
+    ae.acse_timeout = ae.dimse_timeout = ae.network_timeout = 3
+    srv = ae.start_server(("127.0.0.1", 0), block=False,
+                          evt_handlers=rec_acc.handlers() + [(evt.EVT_C_ECHO, on_echo), (evt.EVT_ESTABLISHED, lambda e: acc.__setitem__("a", e.assoc))])
+    try:
+        cl = AE()
+        cl.add_requested_context(Verification)
+        cl.acse_timeout = cl.dimse_timeout = cl.network_timeout = 3
+        a = cl.associate("127.0.0.1", srv.socket.getsockname()[1],
+                         evt_handlers=rec_req.handlers() + [(evt.EVT_PDU_SENT, lambda e: time.sleep(0.05))])
+        if not a.is_established:
+            return {"error": "not established"}
+        a.send_c_echo()
+        leaks = e2e.wait_quiet(before, 3 * 3 + 2.0)
+        res = {"script": {"req": ["echo"], "acc": "stray-" + kind, "acc_delay_ms": 0, "reject": False, "shake": False, "timeouts": 3},
+               "thread_errors": list(thread_errors), "leaks": leaks,
+               "req": {"hist": rec_req.history(a)}, "acc": {"hist": rec_acc.history(acc["a"]) if "a" in acc else []}}
+        return res
+    finally:
+        threading.excepthook = old_hook
+        srv.shutdown()
 
 
 def run(ctx):
@@ -126,6 +179,21 @@ def run(ctx):
             continue
         if "harness_error" in res:
             ctx.diff(["scenario", res["script"]], res["harness_error"], "n/a", "scenario harness failed")
+            continue
+        for side in ("req", "acc"):
+            if res[side]["hist"]:
+                check_history(ctx, side, res, results)
+    import multiprocessing as mp
+
+    pool = mp.get_context("fork").Pool(processes=2, maxtasksperchild=1)
+    try:
+        stray = pool.map(stray_pdu_scenario, ["release-rp", "invalid"] * ctx.n(2, 10))
+    finally:
+        pool.terminate()
+        pool.join()
+    for res in stray:
+        if "error" in res:
+            ctx.diff(["stray-pdu"], res, "n/a", "scenario harness failed")
             continue
         for side in ("req", "acc"):
             if res[side]["hist"]:
